@@ -573,3 +573,82 @@ pub fn crash_suites(thorough: bool) -> Vec<Suite> {
     v.push(crash_suite("crash-uring-v3", u, crash_tables(3), crash_core_ops(), d(3, 4)));
     v
 }
+
+/// Deep histories on small devices with mixed extent sizes (C05).
+pub fn partition_ops() -> Vec<Op> {
+    let a = 0u8;
+    let b = 1u8;
+    vec![
+        ins(a, V_X),
+        ins(a, V_BIG2),
+        ins(a, V_BIG3),
+        ins(b, V_X),
+        ins(b, V_BIG2),
+        Op::Delete { k: a, ts: 0 },
+        Op::Delete { k: b, ts: 0 },
+        Op::Flush,
+        Op::Reopen,
+    ]
+}
+
+pub fn partition_suites(thorough: bool) -> Vec<Suite> {
+    let d = |q: usize, t: usize| if thorough { t } else { q };
+    let mut v = Vec::new();
+    for blocks in [5u64, 7] {
+        v.push(crash_suite(&format!("part-small{blocks}-v3"), small_disk(3, blocks), std_tables(), partition_ops(), d(6, 8)));
+    }
+    for format in [1, 2, 3] {
+        v.push(crash_suite(&format!("part-edge-v{format}"), disk(format, true, false), edge_tables(), edge_ops(), d(5, 7)));
+    }
+    v.push(crash_suite("part-ttl-v3", disk(3, false, true), std_tables(), tier_focus_ops(true), d(5, 6)));
+    v
+}
+
+/// Histories whose flushed images are decoded by the independent reader (C10).
+pub fn layout_tables(cfg: &Cfg) -> Tables {
+    let mut t = std_tables();
+    t.keys = vec![b"a".to_vec(), vec![b'K'; 255], vec![b'L'; 256], vec![b'M'; cfg.max_key()], b"b\0".to_vec()];
+    t
+}
+
+pub fn layout_ops(ttl: bool) -> Vec<Op> {
+    let mut v = Vec::new();
+    for k in 0..5u8 {
+        v.push(ins(k, V_X));
+    }
+    v.push(ins(0, V_BIG2));
+    v.push(ins(3, V_BIG3));
+    v.push(ins_ts(0, V_Y, 1));
+    v.push(ins_ts(0, V_Y, u64::MAX));
+    v.push(ins_ts(4, V_X, FUT));
+    v.push(Op::Delete { k: 0, ts: 0 });
+    v.push(Op::Delete { k: 3, ts: 0 });
+    v.push(Op::Incr { k: 1, delta: 1, ts: 0, ttl: 0 });
+    if ttl {
+        v.push(ins_ttl(0, V_X, 1000, 0));
+        v.push(Op::UpdateTtl { k: 0, secs: 1 });
+        v.push(Op::Persist(0));
+    }
+    v.push(Op::Flush);
+    v.push(Op::Reopen);
+    v
+}
+
+pub fn layout_suites(thorough: bool) -> Vec<Suite> {
+    let d = |q: usize, t: usize| if thorough { t } else { q };
+    let mut v = Vec::new();
+    for (format, ttl) in [(3, true), (2, true), (1, false), (3, false)] {
+        let cfg = disk(format, true, ttl);
+        v.push(crash_suite(
+            &format!("layout-v{format}{}", if ttl { "-ttl" } else { "" }),
+            cfg,
+            layout_tables(&cfg),
+            layout_ops(ttl),
+            d(4, 5),
+        ));
+    }
+    for format in [1, 2, 3] {
+        v.push(crash_suite(&format!("layout-edge-v{format}"), disk(format, true, false), edge_tables(), edge_ops(), d(4, 6)));
+    }
+    v
+}
